@@ -74,17 +74,23 @@ def ufStrList (s : String) : List Str :=
   if s == "-" then [] else (s.splitOn ",").map (fun t => ufUndots (t.drop 1).toString)
 
 /-- `curreg <names>|<symbols>|<rows>` (strings as `s<code points joined by .>`, lists joined by `,`,
-    a row = `sym/name/positive?`) → the registered (symbol, name, row index) in order -/
+    a row = `sym/name/NFKD(name)/positive?`) → the registered (symbol, name, row index) in order -/
 def handleCurReg (payload : String) : String :=
   match payload.splitOn "|" with
   | [ns, ss, rs] =>
     let rows : List (List String) := if rs == "-" then [] else (rs.splitOn ",").map (·.splitOn "/")
+    let str (x : String) : Str := ufUndots (x.drop 1).toString
     let table : Table := rows.zipIdx.map (fun (r, i) =>
       match r with
-      | [a, b, p] => ⟨ufUndots (a.drop 1).toString, ufUndots (b.drop 1).toString,
-                      if p == "1" then .fin ((i + 1 : Nat) : Rat) else .fin 0⟩
+      | [a, b, _, p] => ⟨str a, str b, if p == "1" then .fin ((i + 1 : Nat) : Rat) else .fin 0⟩
       | _ => ⟨[], [], .nan⟩)
-    match registerAll ufConsts.specialNames ufConsts.specialSymbols ⟨ufStrList ns, ufStrList ss, []⟩ table with
+    -- unicodedata.normalize("NFKD", name): supplied by the harness for exactly the names of the request
+    let nfkdTable : List (Str × Str) := rows.filterMap (fun r =>
+      match r with
+      | [_, b, d, _] => some (str b, str d)
+      | _ => none)
+    let nfkd (x : Str) : Str := (lookupStr x nfkdTable).getD x
+    match registerAll nfkd ufConsts.specialNames ufConsts.specialSymbols ⟨ufStrList ns, ufStrList ss, []⟩ table with
     | .error e => "crash " ++ ufExn e
     | .ok r => "ok " ++ ",".intercalate (r.units.map (fun (sym, name, c) =>
         "s" ++ ufDots sym ++ "/s" ++ ufDots name ++ "/" ++
